@@ -343,6 +343,97 @@ fn nanobind_position_probe(rep: &mut Report) {
     }
 }
 
+/// A borrowing struct nested in a borrowing struct: the outer struct's `_fieldsForLifetimeX` getter (JS, Dart) has to
+/// gather, for every field, the inner getters of *all* definition lifetimes instantiated with `X` — also when one outer
+/// lifetime fills several parameters (`Pair<'a, 'a>`) or they are crossed (`Pair<'b, 'a>`) — and it has to evaluate.
+fn nested_struct_probe(rep: &mut Report) {
+    let src = "#[diplomat::bridge]\nmod ffi {\n    use diplomat_runtime::DiplomatStrSlice;\n    #[diplomat::opaque]\n    pub struct Node(pub u32);\n    pub struct Pair<'p, 'q> { pub first: &'p Node, pub first_label: DiplomatStrSlice<'p>, pub second: &'q Node, pub second_label: DiplomatStrSlice<'q> }\n    pub struct Wrapper<'a> { pub pair: Pair<'a, 'a>, pub tag: u8 }\n    pub struct Cross<'a, 'b> { pub pair: Pair<'b, 'a>, pub other: Pair<'a, 'a> }\n    #[diplomat::opaque]\n    pub struct View<'a>(pub &'a Node, pub &'a Node);\n    impl<'a> View<'a> {\n        pub fn from_wrapper(w: Wrapper<'a>) -> Box<View<'a>> { unimplemented!() }\n        pub fn from_cross<'b>(c: Cross<'a, 'b>) -> Box<View<'a>> { unimplemented!() }\n    }\n}\n";
+    let case = "(c04 probe nested-borrowing-structs)";
+    // (struct, outer lifetime, expected `field.DEF` items)
+    let want: [(&str, &str, &[&str]); 3] = [
+        ("Wrapper", "A", &["pair._fieldsForLifetimeP", "pair._fieldsForLifetimeQ"]),
+        ("Cross", "A", &["pair._fieldsForLifetimeQ", "other._fieldsForLifetimeP", "other._fieldsForLifetimeQ"]),
+        ("Cross", "B", &["pair._fieldsForLifetimeP"]),
+    ];
+    for backend in ["js", "dart"] {
+        let o = tool::run_backend(src, backend);
+        rep.oracle_runs += 1;
+        rep.count(&format!("probe:nested-structs:{backend}"));
+        if !o.ok() {
+            rep.oracle_fail(case, "backend failed on nested borrowing structs", json!({"backend": backend, "status": o.status()}));
+            continue;
+        }
+        for (st, lt, items) in want {
+            let file = if backend == "js" { format!("{st}.mjs") } else { format!("{st}.g.dart") };
+            let text = tool::norm_ws(o.files.get(&file).map(|s| s.as_str()).unwrap_or(""));
+            let head = if backend == "js" { format!("get _fieldsForLifetime{lt}() {{ return [") } else { format!("get _fieldsForLifetime{lt} => [") };
+            let Some(at) = text.find(&head) else {
+                rep.oracle_fail(case, "no lifetime getter on a nested borrowing struct", json!({"backend": backend, "struct": st, "lifetime": lt}));
+                continue;
+            };
+            let list = &text[at + head.len()..];
+            let list = &list[..list.find(']').unwrap_or(list.len())];
+            let mut got: Vec<String> = list.split(',').map(|x| x.trim().trim_start_matches("...").trim_start_matches("this.#").trim_start_matches("this.").to_string()).filter(|x| !x.is_empty()).collect();
+            got.sort();
+            let mut exp: Vec<String> = items.iter().map(|x| x.to_string()).collect();
+            exp.sort();
+            if got != exp {
+                rep.oracle_fail(case, "a garbage-collected backend does not attach an input the returned value borrows from", json!({"backend": backend, "struct": st, "lifetime": lt, "getter_lists": got, "expected": exp, "source": src}));
+            }
+        }
+        if backend == "js" && util::run(std::process::Command::new("node").arg("--version")).0 {
+            // evaluate the getters: every inner getter of `Pair` yields two objects
+            let dir = util::workdir("C04nested");
+            for (k, v) in &o.files { if k.ends_with(".mjs") && k != "diplomat-wasm.mjs" { std::fs::write(dir.join(k), v).unwrap(); } }
+            std::fs::write(dir.join("diplomat-wasm.mjs"), "const memory = new WebAssembly.Memory({ initial: 4 });\nexport default new Proxy({ memory, diplomat_alloc() { return 1024; }, diplomat_free() {} }, { get(t, k) { if (k in t) return t[k]; return (...a) => 0; } });\n").unwrap();
+            std::fs::write(dir.join("t.mjs"), "import * as rt from './diplomat-runtime.mjs';\nimport { Node } from './Node.mjs'; import { Wrapper } from './Wrapper.mjs'; import { Cross } from './Cross.mjs';\nconst n = (p) => new Node(rt.internalConstructor, p, [null]);\nconst pair = (a, b) => ({ first: n(a), firstLabel: 'x', second: n(b), secondLabel: 'y' });\nconst show = (name, f) => { try { console.log(name + ' ' + f().length); } catch (e) { console.log(name + ' threw ' + String(e).split('\\n')[0]); } };\nconst w = Wrapper.fromFields({ pair: pair(16, 32), tag: 1 });\nconst c = Cross.fromFields({ pair: pair(48, 64), other: pair(80, 96) });\nshow('Wrapper.A', () => w._fieldsForLifetimeA); show('Cross.A', () => c._fieldsForLifetimeA); show('Cross.B', () => c._fieldsForLifetimeB);\n").unwrap();
+            let (_ok, out, err) = util::run(std::process::Command::new("node").arg("t.mjs").current_dir(&dir));
+            rep.oracle_runs += 1;
+            let expect = "Wrapper.A 4\nCross.A 6\nCross.B 2\n";
+            if out != expect {
+                rep.oracle_fail(case, "evaluating the lifetime getters of a nested borrowing struct in Node does not give the borrowed-from objects", json!({"backend": "js", "output": out, "expected": expect, "stderr": err.lines().take(3).collect::<Vec<_>>()}));
+            }
+            let _ = std::fs::remove_dir_all(&dir);
+        }
+    }
+}
+
+/// Dart returns a borrowed primitive slice either as a copy or as a typed-list *view* onto Rust memory; a view has to
+/// keep the lifetime edges (what it borrows from) alive for as long as it lives.
+fn dart_slice_view_probe(rep: &mut Report) {
+    let prims = ["bool", "u8", "i8", "u16", "i16", "u32", "i32", "u64", "i64", "usize", "isize", "f32", "f64", "DiplomatChar"];
+    let methods: String = prims.iter().enumerate().map(|(i, p)| format!("        pub fn s{i}<'a>(&'a self) -> &'a [{p}] {{ unimplemented!() }}\n")).collect();
+    let src = format!("#[diplomat::bridge]\nmod ffi {{\n    #[diplomat::opaque]\n    pub struct Buf;\n    impl Buf {{\n{methods}    }}\n}}\n");
+    let case = "(c04 probe dart-borrowed-slice-views)";
+    let o = tool::run_backend(&src, "dart");
+    rep.oracle_runs += 1;
+    rep.count("probe:dart-slice-views");
+    if !o.ok() {
+        rep.oracle_fail(case, "dart backend failed on borrowed primitive slices", json!(o.status()));
+        return;
+    }
+    let text: String = o.files.values().cloned().collect::<Vec<_>>().join("\n");
+    let mut seen = 0;
+    let mut from = 0;
+    while let Some(i) = text[from..].find(" _toDart(core.List<Object> lifetimeEdges") {
+        let start = from + i;
+        let end = text[start..].find("return r;").map(|e| start + e).unwrap_or(text.len());
+        let body = &text[start..end];
+        // the class the helper belongs to, for the report
+        let class = text[..start].rfind("final class ").map(|c| text[c + 12..].split_whitespace().next().unwrap_or("?").to_string()).unwrap_or_default();
+        if body.contains("asTypedList(") {
+            seen += 1;
+            if !body.contains("attach(r, lifetimeEdges)") {
+                rep.oracle_fail(case, "a garbage-collected backend does not attach an input the returned value borrows from", json!({"backend": "dart", "helper": class, "detail": "the borrowed branch of _toDart returns a typed-list view without attaching the lifetime edges"}));
+            }
+        }
+        from = end;
+    }
+    if seen < 8 {
+        rep.oracle_fail(case, "fewer typed-list slice helpers than expected were generated", json!({"seen": seen}));
+    }
+}
+
 /// Backend emission: what the analysis lists as borrowed-from must be attached to the returned object by the
 /// generated JS / Dart code (edge list + routing of slice copies of struct fields into it) and kept alive by
 /// nanobind. `real` is the analysis' own answer (public API), not the model's.
@@ -562,6 +653,8 @@ pub fn main(args: &[String]) {
     let thorough = a.tier == "thorough";
     let mut rng = Rng::new(a.seed);
     nanobind_position_probe(&mut rep);
+    nested_struct_probe(&mut rep);
+    dart_slice_view_probe(&mut rep);
     let n = if a.n > 0 { a.n } else if thorough { 20000 } else { 2000 };
     let sigs: Vec<Sig> = (0..n).map(|i| gen_sig(&mut rng, if thorough && i % 4 == 0 { 6 } else { 4 }, true)).collect();
     let lines: Vec<String> = sigs.iter().map(|s| s.sexp()).collect();
